@@ -109,6 +109,20 @@ func verif_extraAttr_roundtrip(extra []byte) {
 	verifAssert("extra", bytes.Equal(a2.extra, extra))
 }
 
+// the other direction (C16): whatever the decoder accepts can be encoded again without a panic (the encoder writes into a
+// fixed array of sszSize + maxExtraLen bytes, so the decoder must never accept a longer payload) and re-encodes to the
+// bytes that were consumed.
+func verif_extraAttr_decode_then_encode(b []byte) {
+	a := &extraAttribute{}
+	n, err := a.deserialize(b)
+	if err != nil {
+		return
+	}
+	bs := a.serialize()
+	verifAssert("len", len(bs) == n && n <= len(b))
+	verifAssert("same", bytes.Equal(bs, b[:n]))
+}
+
 // kv metadata attribute: expiration time, stored as whole seconds (sub-second precision is dropped by design);
 // the decoder builds time.Unix(secs, 0) (library, not modelled): the layout of the encoder is what is stated.
 func verif_expiresAtAttr_layout(a *expiresAtAttribute) {
